@@ -240,6 +240,16 @@ ApplyWhat(w, vs, env, k0) ==
     [] w.w = "for" ->
          [st EXCEPT !.c = Val(VUnit),
                     !.k = Push(k0, [f |-> "for", x |-> w.x, cur |-> vs[1].z, hi |-> vs[2].z, body |-> w.body, env |-> env, inbody |-> FALSE])]
+    \* for x1 in s1 for x2 in s2 .. repeat body: the iterators advance together, the loop ends with the first that is exhausted
+    [] w.w = "pfor" ->
+         LET n == Len(w.its)
+             ofs == [j \in 1..n |-> Len(SelectSeq(SubSeq(w.its, 1, j - 1), LAMBDA it : it.k = "range")) + (j - 1)]
+             sts == [j \in 1..n |-> IF w.its[j].k = "range"
+                                     THEN [k |-> "range", cur |-> vs[ofs[j] + 1].z, hi |-> vs[ofs[j] + 2].z, src |-> VNil]
+                                     ELSE [k |-> "list", cur |-> Zero, hi |-> Zero, src |-> vs[ofs[j] + 1]]]
+         IN [st EXCEPT !.c = Val(VUnit),
+                       !.k = Push(k0, [f |-> "pfor", xs |-> [j \in 1..n |-> w.its[j].x], sts |-> sts, body |-> w.body, env |-> env,
+                                       inbody |-> FALSE])]
     [] w.w = "forin" ->
          [st EXCEPT !.c = Val(VUnit),
                     !.k = Push(k0, [f |-> "forin", x |-> w.x, src |-> vs[1], body |-> w.body, env |-> env, inbody |-> FALSE])]
@@ -397,6 +407,19 @@ EvFor == IsEv /\ X.e = "for" /\      \* for x in lo..hi repeat body
 EvForIn == IsEv /\ X.e = "forin" /\  \* for x in <list or generator> repeat body
   GoAny(StartArgs([w |-> "forin", x |-> X.x, body |-> LoopBody(X)], <<X.src>>))
 
+PForOperands(its) == FlattenSeq([j \in 1..Len(its) |-> IF its[j].k = "range" THEN <<its[j].lo, its[j].hi>> ELSE <<its[j].src>>])
+EvPFor == IsEv /\ X.e = "pfor" /\
+  GoAny(StartArgs([w |-> "pfor", its |-> X.its, body |-> LoopBody(X)], PForOperands(X.its)))
+RetPForStep == IsVal /\ HasF /\ F.f = "pfor" /\
+  Go(LET n == Len(F.sts)
+         done == \E j \in 1..n : IF F.sts[j].k = "range" THEN Cmp(F.sts[j].cur, F.sts[j].hi) > 0 ELSE F.sts[j].src.t = "nil"
+     IN IF done THEN [st EXCEPT !.c = Val(VUnit), !.k = Pop(st.k)]
+        ELSE LET items == [j \in 1..n |-> IF F.sts[j].k = "range" THEN VSI(F.sts[j].cur) ELSE st.s[F.sts[j].src.l].h]
+                 nxt == [j \in 1..n |-> IF F.sts[j].k = "range" THEN [F.sts[j] EXCEPT !.cur = Add(F.sts[j].cur, One)]
+                                        ELSE [F.sts[j] EXCEPT !.src = st.s[F.sts[j].src.l].tl]]
+                 b == BindAll(F.env, st.s, F.xs, items)
+             IN [st EXCEPT !.s = b.s, !.e = b.env, !.c = Ev(F.body),
+                           !.k = Push(Pop(st.k), [F EXCEPT !.sts = nxt, !.inbody = TRUE])])
 EvBreak == IsEv /\ X.e = "break"   /\ Go([st EXCEPT !.c = [k |-> "brk"]])
 EvIter  == IsEv /\ X.e = "iterate" /\ Go([st EXCEPT !.c = [k |-> "iter"]])
 EvRet   == IsEv /\ X.e = "ret" /\
@@ -527,7 +550,7 @@ RetArrive == Running /\ st.c.k = "ret" /\ HasF /\ F.f = "call" /\
   Go([st EXCEPT !.c = Val(st.c.v), !.e = F.env, !.k = Pop(st.k)])
 
 (* break / iterate unwind to the innermost loop frame                          *)
-IsLoopF(f) == f.f \in {"while", "for", "forin"}
+IsLoopF(f) == f.f \in {"while", "for", "forin", "pfor"}
 BrkUnwind == Running /\ st.c.k \in {"brk", "iter"} /\ HasF /\ ~IsLoopF(F) /\ F.f # "try" /\ Go([st EXCEPT !.k = Pop(st.k)])
 BrkArrive == Running /\ st.c.k = "brk" /\ HasF /\ IsLoopF(F) /\ Go([st EXCEPT !.c = Val(VUnit), !.k = Pop(st.k)])
 IterArrive == Running /\ st.c.k = "iter" /\ HasF /\ IsLoopF(F) /\
@@ -579,7 +602,7 @@ Init == /\ pid \in 1..Len(Progs)
 Step == \/ EvLit \/ EvBool \/ EvStr \/ EvUnit \/ EvVar \/ EvMac \/ EvPrim \/ EvCall \/ EvCallV \/ EvPrint
         \/ EvList \/ EvCons \/ EvListOp \/ EvNewArr \/ EvARef \/ EvASet \/ EvALen \/ EvMkRec \/ EvRGet \/ EvRSet
         \/ EvMkUn \/ EvUIs \/ EvUGet \/ EvDCall \/ EvThrow \/ EvIf \/ EvAnd \/ EvOr \/ EvSeq \/ EvAsg \/ EvLet \/ EvLam \/ EvGen
-        \/ EvWhile \/ EvFor \/ EvForIn \/ EvBreak \/ EvIter \/ EvRet \/ EvYield \/ EvTry \/ EvError \/ EvAssert \/ RetAssert \/ EvTuple \/ EvMAsg \/ RetMAsg \/ EvCollect \/ RetCollNext \/ RetCollCond \/ RetCollBody \/ EvACall \/ EvPerRep \/ EvWhere
+        \/ EvWhile \/ EvFor \/ EvForIn \/ EvBreak \/ EvIter \/ EvRet \/ EvYield \/ EvTry \/ EvError \/ EvAssert \/ RetAssert \/ EvTuple \/ EvMAsg \/ RetMAsg \/ EvCollect \/ RetCollNext \/ RetCollCond \/ RetCollBody \/ EvACall \/ EvPerRep \/ EvWhere \/ EvPFor \/ RetPForStep
         \/ RetArgsNext \/ RetArgsApply \/ RetIf \/ RetAnd \/ RetOr \/ RetSeq \/ RetExitTaken \/ RetExitNot
         \/ RetAsg \/ RetLet \/ RetWhileCond \/ RetWhileBody \/ RetForStep \/ RetForInList \/ RetForInGen
         \/ RetGenEnd \/ RetYieldK \/ YieldUnwind \/ YieldDeliver \/ RetCall \/ RetRetK \/ RetUnwind \/ RetArrive
